@@ -10,15 +10,45 @@ impl<I: Identifier> Clone for ValueType<I> {
 	fn clone(&self) -> (r: Self) ensures r == *self { unimplemented!() }
 }
 
-// ASSUMPTION on the identifier type parameter: its `==` is structural equality (true for String and &'static str).
-pub open spec fn id_eq<I: Identifier>() -> bool {
-	I::obeys_eq_spec() && forall|a: I, b: I| #[trigger] a.eq_spec(&b) == (a == b)
+// ASSUMPTION on the identifier type parameter: its exec `==` computes its spec relation `eq_spec`
+// (true of any deterministic `eq`; the real instantiation is alpha::common::Identifier, whose `==`
+// compares resolution ids / locations and is NOT structural - so identifiers are compared through
+// eq_spec everywhere below, never through spec `==`).
+pub open spec fn id_eq<I: Identifier>() -> bool { I::obeys_eq_spec() }
+// needed only by the lemmas that chain equalities (listed as an assumption in the evidence)
+pub open spec fn id_equiv<I: Identifier>() -> bool {
+	&&& forall|a: I| #[trigger] a.eq_spec(&a)
+	&&& forall|a: I, b: I| #[trigger] a.eq_spec(&b) ==> b.eq_spec(&a)
+	&&& forall|a: I, b: I, c: I| #[trigger] a.eq_spec(&b) && #[trigger] b.eq_spec(&c) ==> a.eq_spec(&c)
+}
+pub open spec fn oeq<I: Identifier>(a: Option<I>, b: Option<I>) -> bool {
+	match (a, b) { (None, None) => true, (Some(x), Some(y)) => x.eq_spec(&y), _ => false }
+}
+// teq: what `#[derive(PartialEq)]` computes on ValueType: same shape, identifiers related by their own `==`
+pub open spec fn teq<I: Identifier>(a: ValueType<I>, b: ValueType<I>) -> bool
+	decreases a
+{
+	match a {
+		ValueType::Array { element_type, length } => b is Array && length == b->Array_length && teq(*element_type, *b->Array_element_type),
+		ValueType::ArrayWithNamedLength { element_type, named_length } => b is ArrayWithNamedLength
+			&& named_length.eq_spec(&b->ArrayWithNamedLength_named_length) && teq(*element_type, *b->ArrayWithNamedLength_element_type),
+		ValueType::Slice { element_type } => b is Slice && teq(*element_type, *b->Slice_element_type),
+		ValueType::SlicePointer { element_type } => b is SlicePointer && teq(*element_type, *b->SlicePointer_element_type),
+		ValueType::EndlessArray { element_type } => b is EndlessArray && teq(*element_type, *b->EndlessArray_element_type),
+		ValueType::Arraylike { element_type } => b is Arraylike && teq(*element_type, *b->Arraylike_element_type),
+		ValueType::Struct { identifier } => b is Struct && identifier.eq_spec(&b->Struct_identifier),
+		ValueType::Word { identifier, size_in_bytes } => b is Word && identifier.eq_spec(&b->Word_identifier) && size_in_bytes == b->Word_size_in_bytes,
+		ValueType::UnresolvedStructOrWord { identifier } => b is UnresolvedStructOrWord && oeq(identifier, b->UnresolvedStructOrWord_identifier),
+		ValueType::Pointer { deref_type } => b is Pointer && teq(*deref_type, *b->Pointer_deref_type),
+		ValueType::View { deref_type } => b is View && teq(*deref_type, *b->View_deref_type),
+		_ => a == b,
+	}
 }
 
-// trusted: `#[derive(PartialEq)]` on ValueType is structural equality whenever the identifiers' `==` is
+// trusted: `#[derive(PartialEq)]` on ValueType computes teq whenever the identifiers' `==` obeys its spec
 impl<I: Identifier> vstd::std_specs::cmp::PartialEqSpecImpl for ValueType<I> {
 	open spec fn obeys_eq_spec() -> bool { id_eq::<I>() }
-	open spec fn eq_spec(&self, o: &Self) -> bool { *self == *o }
+	open spec fn eq_spec(&self, o: &Self) -> bool { teq(*self, *o) }
 }
 
 pub open spec fn is_ptrlike<I: Identifier>(t: ValueType<I>) -> bool { t is Pointer || t is View }
@@ -68,7 +98,7 @@ pub open spec fn norm<I: Identifier>(t: ValueType<I>) -> ValueType<I>
 }
 
 // "identical type" of the property statement: identical up to the single documented alias
-pub open spec fn same_type<I: Identifier>(a: ValueType<I>, b: ValueType<I>) -> bool { norm(a) == norm(b) }
+pub open spec fn same_type<I: Identifier>(a: ValueType<I>, b: ValueType<I>) -> bool { teq(norm(a), norm(b)) }
 
 // The documented coercions (docs/features.md: arrays and structs are passed as views; arrays and slices
 // decay to slices / views of endless arrays; slice pointers to pointers to endless arrays).
@@ -82,7 +112,7 @@ pub open spec fn coercion<I: Identifier>(a: ValueType<I>, b: ValueType<I>) -> bo
 	||| ((a is Array || a is ArrayWithNamedLength) && b is Slice && same_type(elem(a), elem(b)))
 	||| ((a is Array || a is ArrayWithNamedLength || a is Slice) && is_view_of_endless(b, elem(a)))
 	||| (a is SlicePointer && is_ptr_to_endless(b, elem(a)))
-	||| (a is Struct && b is View && deref(b) == a)
+	||| (a is Struct && b is View && teq(deref(b), a))
 }
 pub open spec fn address_coercion<I: Identifier>(a: ValueType<I>, b: ValueType<I>) -> bool {
 	(a is Array || a is ArrayWithNamedLength)
@@ -198,10 +228,40 @@ proof fn lemma_pow2_add(a: nat, b: nat)
 
 // ---- lemmas: consequences that the property statements name -------------------------------
 
-// equals is an equivalence (follows from the characterisation same_type)
+proof fn lemma_teq_refl<I: Identifier>(a: ValueType<I>)
+	requires id_equiv::<I>()
+	ensures teq(a, a)
+	decreases a
+{
+	if has_elem(a) { lemma_teq_refl(elem(a)); }
+	if is_ptrlike(a) { lemma_teq_refl(deref(a)); }
+}
+proof fn lemma_teq_sym<I: Identifier>(a: ValueType<I>, b: ValueType<I>)
+	requires id_equiv::<I>(), teq(a, b)
+	ensures teq(b, a)
+	decreases a
+{
+	if has_elem(a) { lemma_teq_sym(elem(a), elem(b)); }
+	if is_ptrlike(a) { lemma_teq_sym(deref(a), deref(b)); }
+}
+proof fn lemma_teq_trans<I: Identifier>(a: ValueType<I>, b: ValueType<I>, c: ValueType<I>)
+	requires id_equiv::<I>(), teq(a, b), teq(b, c)
+	ensures teq(a, c)
+	decreases a
+{
+	if has_elem(a) { lemma_teq_trans(elem(a), elem(b), elem(c)); }
+	if is_ptrlike(a) { lemma_teq_trans(deref(a), deref(b), deref(c)); }
+}
+
+// equals (== same_type) is an equivalence relation when identifier equality is one
 proof fn lemma_same_type_equiv<I: Identifier>(a: ValueType<I>, b: ValueType<I>, c: ValueType<I>)
+	requires id_equiv::<I>()
 	ensures same_type(a, a), same_type(a, b) ==> same_type(b, a), same_type(a, b) && same_type(b, c) ==> same_type(a, c)
-{ }
+{
+	lemma_teq_refl(norm(a));
+	if same_type(a, b) { lemma_teq_sym(norm(a), norm(b)); }
+	if same_type(a, b) && same_type(b, c) { lemma_teq_trans(norm(a), norm(b), norm(c)); }
+}
 
 proof fn lemma_norm_shape<I: Identifier>(t: ValueType<I>)
 	ensures has_elem(norm(t)) == has_elem(t), is_ptrlike(norm(t)) == is_ptrlike(t),
@@ -211,14 +271,6 @@ proof fn lemma_norm_shape<I: Identifier>(t: ValueType<I>)
 		norm(t) is Struct == t is Struct, t is Struct ==> norm(t) == t,
 { }
 
-proof fn lemma_norm_idem<I: Identifier>(t: ValueType<I>)
-	ensures norm(norm(t)) == norm(t)
-	decreases t
-{
-	if has_elem(t) { lemma_norm_idem(elem(t)); }
-	if is_ptrlike(t) { lemma_norm_idem(deref(t)); }
-}
-
 proof fn lemma_strip_norm<I: Identifier>(t: ValueType<I>)
 	ensures strip(norm(t)) == norm(strip(t))
 	decreases t
@@ -226,19 +278,29 @@ proof fn lemma_strip_norm<I: Identifier>(t: ValueType<I>)
 	if is_ptrlike(t) { lemma_strip_norm(deref(t)); }
 }
 
+proof fn lemma_strip_teq<I: Identifier>(a: ValueType<I>, b: ValueType<I>)
+	requires teq(a, b)
+	ensures teq(strip(a), strip(b))
+	decreases a
+{
+	if is_ptrlike(a) { lemma_strip_teq(deref(a), deref(b)); }
+}
+
+pub open spec fn same_core<I: Identifier>(a: ValueType<I>, b: ValueType<I>) -> bool { teq(core_of(a), core_of(b)) }
+
 proof fn lemma_core_same_type<I: Identifier>(a: ValueType<I>, b: ValueType<I>)
 	requires same_type(a, b)
-	ensures core_of(a) == core_of(b)
+	ensures same_core(a, b)
 {
 	lemma_strip_norm(a); lemma_strip_norm(b);
+	lemma_strip_teq(norm(a), norm(b));
 	lemma_norm_shape(strip(a)); lemma_norm_shape(strip(b));
-	lemma_norm_idem(elem(strip(a))); lemma_norm_idem(elem(strip(b)));
-	assert(norm(strip(a)) == norm(strip(b)));
+	assert(teq(norm(strip(a)), norm(strip(b))));
 }
 
 proof fn lemma_subauto_core<I: Identifier>(a: ValueType<I>, b: ValueType<I>)
 	requires subauto(a, b)
-	ensures core_of(a) == core_of(b)
+	ensures same_core(a, b)
 	decreases a
 {
 	let d = deref(a);
@@ -248,17 +310,18 @@ proof fn lemma_subauto_core<I: Identifier>(a: ValueType<I>, b: ValueType<I>)
 }
 
 proof fn lemma_coercion_core<I: Identifier>(a: ValueType<I>, b: ValueType<I>)
-	requires coercion(a, b) || address_coercion(a, b)
-	ensures core_of(a) == core_of(b)
+	requires id_equiv::<I>(), coercion(a, b) || address_coercion(a, b)
+	ensures same_core(a, b)
 {
 	reveal_with_fuel(strip, 3);
+	if a is Struct && b is View && teq(deref(b), a) { lemma_teq_sym(deref(b), a); }
 }
 
 // C07 kernel theorem: whatever autoderef/coercion accepts, the underlying element/primitive type is unchanged:
 // only pointer/view layers are stripped or added and array forms exchanged - never int<->int, bool<->int, ...
 proof fn theorem_autoderef_preserves_core<I: Identifier>(a: ValueType<I>, b: ValueType<I>)
-	requires autoderef(a, b)
-	ensures core_of(a) == core_of(b)
+	requires id_equiv::<I>(), autoderef(a, b)
+	ensures same_core(a, b)
 {
 	if same_type(a, b) { lemma_core_same_type(a, b); }
 	else if is_ptrlike(a) {
